@@ -150,7 +150,7 @@ def _mk(rng, **f):
         wfiles = f.get('wfiles', rng.choice(['wmi', 'wm', 'both']))
     else:
         wfiles = 'none' if wmi is None else 'wmi'
-    styles = f.get('styles') or [rng.choice(['random', 'random', 'ties', 'distinct', 'local', 'zero', 'big'])
+    styles = f.get('styles') or [rng.choice(['random', 'random', 'random', 'ties', 'ties', 'distinct', 'distinct', 'local', 'local', 'zero', 'big', 'big'])
                                  for _ in range(nt)]
     if storage == 'dense':
         nloc, cols = nc, None
@@ -228,9 +228,11 @@ def _mk(rng, **f):
             reqs.append(r)
         if rng.random() < 0.5:
             reqs.append({'k': 'acc', 'tid': tid})
-    for cid in sorted(set(sc if sc is not None else st)) + [nt + 3]:
+    for cid in sorted(set(sc if sc is not None else st)):
         if rng.random() < 0.5:
             reqs.append({'k': 'clu', 'cid': cid})
+    if rng.random() < 0.2:
+        reqs.append({'k': 'clu', 'cid': nt + 3})              # a cluster without spikes: phylib raises
     return {'kind': 'get', 'inp': {'ds': sem, 'reqs': reqs}}
 
 
